@@ -105,7 +105,15 @@ class World (object):
         return w.on_invoke(s, event, a, k)
       def _handle_E1 (self_, event, *a, **k):
         return w.on_invoke(s, event, a, k)
-    o = Owner()
+    if s.sid % 3 == 1:
+      # an owner object whose truth value is False (an empty container-like
+      # component): alive is not the same as truthy
+      class EmptyOwner (Owner):
+        def __len__ (self_): return 0
+      o = EmptyOwner()
+      self.rep.count("falsy_owners")
+    else:
+      o = Owner()
     self.owners[s.sid] = o
     handler = o._handle_E0 if t == 0 else o._handle_E1
     s.handler = None if weak else handler
